@@ -108,14 +108,15 @@ int c_aggregate(int nval, int operator, int maxnan, int * aggindex,
 long long c_combi(int n, int k)
 {
     long long ans=1;
+    long long nk = (long long)n-(long long)k;
     int j=1;
 
     /* Skip if number  is too high */
-    if(k>30 || n-k>30){
+    if(k>30 || nk>30){
         return -1;
     }
 
-    k = k>n-k ? n-k : k;
+    k = k>nk ? (int)nk : k;
 
     for(;j<=k;j++,n--)
     {
